@@ -503,13 +503,19 @@ func (x *Exec) instr(st *State, in ssa.Instruction) {
 			}
 		}
 		e.ar.SideCond = func(c *Term, what string) { x.safety(st, v, "overflow", c, what) }
-		r := x.guard(func() Val { return st.binop(v.Op, v.X.Type(), a, b, v.Y.Type()) })
-		e.ar.SideCond = nil
+		var r Val
+		func() {
+			defer func() { e.ar.SideCond = nil }()
+			r = x.guard(func() Val { return st.binop(v.Op, v.X.Type(), a, b, v.Y.Type()) })
+		}()
 		set(v, r)
 	case *ssa.Convert:
 		e.ar.SideCond = func(c *Term, what string) { x.safety(st, v, "overflow", c, what) }
-		r := x.guard(func() Val { return st.convert(v.X.Type(), v.Type(), x.val(st, v.X)) })
-		e.ar.SideCond = nil
+		var r Val
+		func() {
+			defer func() { e.ar.SideCond = nil }()
+			r = x.guard(func() Val { return st.convert(v.X.Type(), v.Type(), x.val(st, v.X)) })
+		}()
 		set(v, r)
 	case *ssa.ChangeType:
 		set(v, x.val(st, v.X))
